@@ -833,6 +833,24 @@ func (f *Flow) valueOf(v ssa.Value, c code, fi *flagInfo, b *ssa.BasicBlock) int
 		}
 		return 0
 	}
+	// a result spilled to a cell (named result of a function with a defer): the value stored to the
+	// cell earlier in this block
+	if u, ok := v.(*ssa.UnOp); ok && u.Op == token.MUL {
+		if al, ok := u.X.(*ssa.Alloc); ok && u.Block() == b {
+			var last ssa.Value
+			for _, in := range b.Instrs {
+				if in == ssa.Instruction(u) {
+					break
+				}
+				if st, ok := in.(*ssa.Store); ok && st.Addr == ssa.Value(al) {
+					last = st.Val
+				}
+			}
+			if last != nil {
+				return f.valueOf(last, c, fi, b)
+			}
+		}
+	}
 	if q, ok := v.(*ssa.Phi); ok {
 		if k, ok := fi.slot[q]; ok && fi.current(q, b) {
 			if fv := c.f[k]; fv < 3 {
